@@ -14,3 +14,7 @@ def run(res, tier, seed, replay):
     if not ok: res.broke("extraction of the model failed", out); return
     n = 150 if tier == "quick" else 6000
     histlib.check_histories(res, "c02", n, seed, "full", max_lifetimes=3 if tier == "quick" else 8, extra_lines=histlib.CORPUS)
+    # counted fakes with met and unmet budgets mixed with re-faking: scope exit may panic in call-count verification,
+    # and everything must still be restored
+    corpus2 = [("q0 r0,fk0,fk1,fk2,fk3 I:r0:raw:0,T:r0:2", [["I:r0:raw:0", "T:r0:2"]]), ("q1 r0,r1,fk0,fk1,fk2,fk3 T:r1:1,I:r0:clo:1,I:r0:raw:2,C:r0", [["T:r1:1", "I:r0:clo:1", "I:r0:raw:2", "C:r0"]])]
+    histlib.check_histories(res, "c02", n // 2, seed + 2, "full", max_lifetimes=3, extra_lines=corpus2, gen=histlib.gen_counted_history, novals=True)
